@@ -42,6 +42,7 @@ func c18(c *core.Ctx) map[string]interface{} {
 	c.Explanation = "Static key/field/parameter table check of configuration loading and mode selection (C18). Decided: (R18.keys) the yaml tags of Conf.Configuration are exactly the 24 documented keys of config.yaml (both shipped copies are parsed), unique, on exported fields of a kind fitting the documented values; (R18.load) GetConfiguration reads config.yaml and hands the bytes and its receiver to yaml.Unmarshal, nothing else writes the configuration afterwards (neither in GetConfiguration nor in main), and main loads it before the first read; (R18.flow) every argument of ConnectToAmf, ManageNGSetup, CreateUE, RegisterUE, EstablishPDU, ServiceRequest, ReleasePDU, DeregisterUE and InterfaceByName, and every loop bound, is the unconverted field whose tag is the documented key of that parameter, in both modes; the five test counts reach the five loops (through Min clamps); (R18.mode) GetMode, over all argument-vector lengths 0..4 and both outcomes of the \"-t\" comparison, returns 1 exactly for length 1, 2 exactly for length 2 with \"-t\", 0 otherwise; in main every procedure call is control-dependent on mode==1 or mode==2 and the banners match the branch. (R18.addr) ConnectToAmf binds the stg endpoint and dials the amf endpoint, each the resolver's answer for its configured address with its configured port, and no lossy net.IP conversion is stored unchecked on the way; (R16.cred) K, OPc and OP reach the subscription data in their own roles. NOT decided: yaml.v2's scalar conversion (trusted); README prose."
 	c.Assumptions = []string{"gopkg.in/yaml.v2 stores each scalar in the field carrying the matching yaml tag without altering it"}
 	fields := r18keys(c)
+	r0swap(c)
 	r18load(c)
 	r18flow(c, fields)
 	r18mode(c)
